@@ -17,6 +17,8 @@ sed -i "s|/repo|$TREE|g" $W/sim/Cargo.toml $W/sim/src/main.rs $W/sim/src/c15.rs
 [ -f $TREE/Cargo.lock ] || cp /repo/Cargo.lock $TREE/Cargo.lock
 cp /verif/known_findings.txt $W/home/
 export SIMCTL_HOME=$W/home CARGO_NET_OFFLINE=true RUSTFLAGS="--cfg emu8086_verif"
+# the scratch tree's own guard-off binary, if it has been built: confirms violations, runs the fidelity sweep
+[ -x $TREE/target/debug/emulator_8086 ] && export SIMCTL_REAL_BIN=$TREE/target/debug/emulator_8086
 # share the heavy dependency build with nothing: own target dir, removed by the caller when done
 ( cd $W/sim && cargo build --release --offline >$W/build.log 2>&1 ) || { echo "$NAME BUILD-FAILED"; tail -20 $W/build.log; exit 2; }
 for p in $PROPS; do
